@@ -5,3 +5,4 @@ pub mod ctl;
 pub mod codec;
 pub mod ops;
 pub mod specgen;
+pub mod proc;
